@@ -28,7 +28,7 @@ func C20(c *Ctx) {
 		"(A12) pagination-callback idiom on go/ssa CFGs: in every closure passed to query.FilteredPaginate the append to the result is guarded by `accumulate`, no non-error return is control- or data-dependent on `accumulate` (so counting pages and collecting pages see the same hits), the appended element is the decoded `value`, and every `false` return is guarded by a predicate over the request; " +
 		"for GenericFilteredPaginate callbacks a nil result is returned only under a request-dependent filter and the returned item carries the decoded value; " +
 		"(A7) every store section is encoded and decoded with one single Go type across all writers, getters, iterators and paginated queries, and the prefix store handed to a paginator is the section its callback decodes. Structural necessary conditions; SDK paginator correctness is trusted."
-	r.Rules = []string{"A1.query-readonly", "A12.accumulate-guard", "A12.hit-independent-of-accumulate", "A12.element", "A12.item-identity", "A12.filter-only-drop", "A12.filter-complete", "A7.section-type"}
+	r.Rules = []string{"A1.query-readonly", "A12.accumulate-guard", "A12.hit-independent-of-accumulate", "A12.element", "A12.item-identity", "A12.filter-only-drop", "A12.filter-complete", "A11.parser", "A11.reprefix", "A7.section-type"}
 	r.Trusted = []string{"cosmos-sdk types/query FilteredPaginate / GenericFilteredPaginate semantics", "codec (Must)Unmarshal decodes what (Must)Marshal encoded for the same type"}
 	r.NotDecided = []string{"cross-page completeness as behaviour", "bank keeper pagination used by TotalSupply"}
 
@@ -121,6 +121,10 @@ func C20(c *Ctx) {
 	}
 	r.Obls = kept
 	r.Control("A12.*", "fixtures/c20", ctl >= 2)
+
+	// "each returned item equals what the point query returns": the parties a stream listing reports are parsed out of
+	// the entry's key — the parsers read what the key builders wrote (the rule is C18's; it is this clause's too)
+	streamParsers(c, streamKeyBuilders(c))
 
 	sectionTypes(c)
 }
@@ -420,8 +424,7 @@ func streamItemIdentity(c *Ctx) int {
 					if cst, ok := ret.Results[0].(*ssa.Const); ok && cst.Value == nil {
 						continue
 					}
-					n++
-					itemIdentity(c, f, cb, ret, fmt.Sprintf("%s|return%d", fn(cb), i))
+					n += itemIdentity(c, f, cb, ret, fmt.Sprintf("%s|return%d", fn(cb), i))
 				}
 			}
 		}
@@ -519,9 +522,85 @@ func freeVarBinding(c *Ctx, parent, cb *ssa.Function, e *ir.Expr) string {
 // returned only on the edge where that comparison holds), or (c) the address the iterated prefix store was
 // opened with (every key under it belongs to that party). A request address admitted by any weaker test (a
 // suffix or prefix match on the raw key bytes) reports streams under a pair they were never created with.
-func itemIdentity(c *Ctx, parent, cb *ssa.Function, ret *ssa.Return, rk string) {
-	w, r := c.W, c.R
+func itemIdentity(c *Ctx, parent, cb *ssa.Function, ret *ssa.Return, rk string) int {
+	w := c.W
 	fields := heapFields(c, cb, ret.Results[0], 0)
+	// a callback that asks a function handed to its enclosing function (`locate(key)` in a paginator shared by several
+	// queries) is judged once per caller of that function, with the function each caller hands in
+	for _, party := range []string{"Receiver", "Sender"} {
+		v, ok := fields[party]
+		if !ok {
+			continue
+		}
+		var fvName string
+		v.Walk(func(x *ir.Expr) bool {
+			if x.Op == "call" && x.Name == "dyn" && len(x.Args) > 0 && x.Args[0].Op == "free" {
+				fvName = x.Args[0].Name
+			}
+			return true
+		})
+		if fvName == "" {
+			continue
+		}
+		pi := -1
+		for _, b := range parent.Blocks {
+			for _, in := range b.Instrs {
+				mc, ok := in.(*ssa.MakeClosure)
+				if !ok || mc.Fn != ssa.Value(cb) {
+					continue
+				}
+				for i, fv := range cb.FreeVars {
+					if fv.Name() != fvName || i >= len(mc.Bindings) {
+						continue
+					}
+					bv := mc.Bindings[i]
+					if sv := ir.SingleAssignment(bv); sv != nil {
+						bv = sv
+					}
+					for j, p := range parent.Params {
+						if ssa.Value(p) == bv {
+							pi = j
+						}
+					}
+				}
+			}
+		}
+		if pi < 0 {
+			break
+		}
+		n := 0
+		for _, ed := range w.Callers(parent) {
+			call, ok := ed.Site.(ssa.CallInstruction)
+			if !ok || w.IsGenerated(ed.From) || ir.IsFixture(ed.From) {
+				continue
+			}
+			args := call.Common().Args
+			idx := pi
+			if call.Common().IsInvoke() {
+				idx = pi - 1
+			}
+			if idx < 0 || idx >= len(args) {
+				continue
+			}
+			ce := w.ResolveCaptured(w.ExprOf(args[idx]))
+			inst := map[string]*ir.Expr{}
+			for k, fv := range fields {
+				inst[k] = w.Expand(ir.Subst(fv, map[string]*ir.Expr{"free:" + fvName: ce}), 4)
+			}
+			n++
+			itemIdentityFields(c, ed.From, cb, ret, rk+"|via "+fn(ed.From), inst)
+		}
+		if n > 0 {
+			return n
+		}
+		break
+	}
+	itemIdentityFields(c, parent, cb, ret, rk, fields)
+	return 1
+}
+
+func itemIdentityFields(c *Ctx, parent, cb *ssa.Function, ret *ssa.Return, rk string, fields map[string]*ir.Expr) {
+	w, r := c.W, c.R
 	for _, party := range []string{"Receiver", "Sender"} {
 		v, ok := fields[party]
 		if !ok {
@@ -535,20 +614,26 @@ func itemIdentity(c *Ctx, parent, cb *ssa.Function, ret *ssa.Return, rk string) 
 			}
 		}
 		isParsed := func(e *ir.Expr) bool {
+			// a key parser: the SDK's length-prefixed reader, or a function of the stream types package from a key to addresses
+			// (that each of them reads the builder's layout is A11.parser's obligation)
+			isParserCall := func(z *ir.Expr) bool {
+				if z.Op != "call" {
+					return false
+				}
+				if strings.HasSuffix(z.Name, "types.ParseLengthPrefixedBytes") {
+					return true
+				}
+				return z.Callee != nil && isStreamKeyParser(z.Callee)
+			}
 			mentionsParser := func(x *ir.Expr) bool {
 				return x.Any(func(z *ir.Expr) bool {
-					return z.Op == "call" && (strings.HasSuffix(z.Name, "types.ParseLengthPrefixedBytes") || strings.Contains(z.Name, "AddressesFromStreamKey") || strings.Contains(z.Name, "FirstAddressFromStreamStoreKey")) &&
-						z.Any(func(y *ir.Expr) bool { return y.Op == "param" && y.Name == cb.Params[0].Name() })
+					return isParserCall(z) && z.Any(func(y *ir.Expr) bool { return y.Op == "param" && y.Name == cb.Params[0].Name() })
 				})
 			}
 			if mentionsParser(e) {
 				return true
 			}
-			x := w.Expand(e, 3)
-			return x.Any(func(z *ir.Expr) bool {
-				return z.Op == "call" && (strings.HasSuffix(z.Name, "types.ParseLengthPrefixedBytes") || strings.Contains(z.Name, "AddressesFromStreamKey") || strings.Contains(z.Name, "FirstAddressFromStreamStoreKey")) &&
-					z.Any(func(y *ir.Expr) bool { return y.Op == "param" && y.Name == cb.Params[0].Name() })
-			})
+			return mentionsParser(w.ExpandKeep(e, 3, func(f *ssa.Function) bool { return isStreamKeyParser(f) }))
 		}
 		okID := isParsed(addr)
 		why := "parsed from the entry's key"
@@ -901,4 +986,21 @@ func filterComplete(c *Ctx, site *ssa.Call, cbv ssa.Value, storeIdx int, generic
 		r.Require(hits > 0, "A12.filter-complete", key+"|hits", w.Pos(cb.Pos()), "the callback has a way to report a hit", "none found")
 	}
 	return n
+}
+
+// isStreamKeyParser: a function of the stream types package from a key ([]byte) to one or more addresses.
+func isStreamKeyParser(f *ssa.Function) bool {
+	if f == nil || ir.FnPkg(f) == nil || ir.RelPkg(ir.FnPkg(f).Path()) != "x/stream/types" || len(f.Params) != 1 || f.Params[0].Type().String() != "[]byte" {
+		return false
+	}
+	res := f.Signature.Results()
+	if res.Len() == 0 {
+		return false
+	}
+	for i := 0; i < res.Len(); i++ {
+		if !strings.HasSuffix(res.At(i).Type().String(), "types.AccAddress") {
+			return false
+		}
+	}
+	return true
 }
